@@ -9,6 +9,12 @@ All three share spec/AggSymmetry.tla (+ SymAgg.tla, TraceAggSymmetry.tla):
      power-of-two scales with identical seeding; equality of rationals where the model computes the value,
      otherwise the derived allowance of aggsym_common; instances the model classifies as tie / rank-ambiguous /
      threshold-ambiguous are skipped AND counted where the property's quantifier excludes them;
+     C08 additionally in the PRESENTATIONS of the model (PadZero / WideTo: 4^wk copies of every column and zero columns
+     in three layouts up to widths 521..16389 that are no multiples of block sizes) and along the HISTORIES of the model
+     (HistPlans: one long-lived aggregator object per configuration, storage refilled in place after it held another
+     matrix; the reference always from an independent object on an independent tensor); C09 with UPGrad's norm_eps
+     also 0 and 0.0 (NormEpsCfgs); C10 at the near-max scale of float64 and float32 for exactly the fixed-weight
+     aggregators the model bounds (NearMaxLaw);
  (c) C->S  seeded random lattice instances and random generator words, logged with both outputs and validated
      by TraceAggSymmetry (exact aggregators by value, the others at predicate level, classification cross-checked).
 """
@@ -24,20 +30,29 @@ from .core import Ctx, MachineryError
 RULES = {
     "C08": "one case = (instance, column transformation Q, scale 2^e, aggregator); Q ranges over the words of length <= "
            "MaxSteps in {column swap, column negation, Hadamard/2 block on 4 columns, appended zero column}, optionally closed by PadZero(k, layout): "
-           "k = 2^12..2^14 all-zero columns appended or interleaved (law by induction in the model, materialised by the replay); the family includes "
+           "k = 2^12..2^14 all-zero columns appended, prepended or interleaved, or by WideTo(wk, w, layout): every column repeated 4^wk times (scaled "
+           "2^-wk) and zero columns up to a total width w from the ladder 521..16381 (primes, 2^10 +- 1; laws by induction in the model, materialised by "
+           "the replay); every case with a fresh object on a fresh tensor AND, at one scale, with ONE long-lived object per configuration on storage "
+           "that is refilled in place (contiguous buffer, strided view, new view object per call) after it held another matrix; the family includes "
            "badly conditioned instances of unambiguous rank (condition number 37..63); non-trivial = "
            "Q is not the identity and the instance has rank >= 2 and a negative Gramian entry (projection-based weights differ from the mean)",
     "C09": "one case = (instance, c1, c2, a, b, scale 2^e, aggregator) with c entries in {1, 2^10, 2^20} (6 orders of magnitude), a, b in 1..3; "
            "non-trivial = c1 != c2, one of them non-uniform, conflicting rows; UPGrad additionally over reg_eps in 1e-2..1e-12 (fresh object per rung, "
-           "walked down and then up within one process) and norm_eps in {1e-4, 1e-2, 1e-6}, "
+           "walked down and then up within one process) and norm_eps in {1e-4, 1e-2, 1e-6, 0 (int), 0.0}, "
            "including scales at which the singular values of diag(c) J lie on both sides of norm_eps (largest above, a non-zero one below; decided exactly)",
-    "C10": "one case = (instance, row permutation, parameter vectors permuted with the rows, scale 2^e, aggregator); ALL m! permutations of "
+    "C10": "one case = (instance, row permutation, parameter vectors permuted with the rows, scale 2^e, aggregator; for the fixed-weight aggregators "
+           "with sum |w_i| <= 1 - decided by the model, spec NearMaxLaw - also the scale that puts the largest entry into [max/2, max) of float64 and of "
+           "float32); ALL m! permutations of "
            "every instance (m <= 4 quick, m <= 5 thorough), with a fresh object per call AND (aggregators without per-row parameters) with ONE object called "
            "consecutively on temporaries J[pi], also in the model's wide presentation (columns repeated 4^5 times, scaled 2^-5: 3 x 4096); "
            "non-trivial = non-identity permutation of an instance with different rows and a non-constant parameter vector",
 }
 ASSUMPTIONS = [
-    "float64; matrices are integers (or half-integers) times 2^e, so J J^T, J Q and diag(c) J are exact in floats and Gram(JQ) = Gram(J) bit for bit",
+    "float64 (float32 only in the near-max family of C10); matrices are integers (or half-integers) times 2^e, so J J^T, J Q and diag(c) J are exact in floats and Gram(JQ) = Gram(J) bit for bit",
+    "near-max family (C10): only aggregators with FIXED weights w, sum |w_i| <= 1 (model flag NearMaxFlags): every partial sum of w @ J is a subset sum, "
+    "bounded by max |J|; Sum, TrimmedMean (sum before dividing) and everything that forms J J^T or distances overflow order-dependently on such matrices "
+    "in the unchanged code too and are not evaluated there (counted as skipped:near_max_partial_sums_not_bounded_by_the_model)",
+    "UPGrad(norm_eps=0): the zero matrix is skipped (sigma_max = 0 is not < 0, the normalisation is 0/0) and counted",
     "rationalisation: Fraction(x * 2^-e).limit_denominator(10^4), accepted only with residual <= 1e-9 * max(1,|x|)",
     "allowance 64*eps*cond*ref with cond from exact model data (det G' >= 1, tr G, rank, line-search denominator) - see harness/aggsym_common.py",
     "CAGrad (conic solver) is compared at predicate level with 1e-4*ref; MGDA(default) with the self-certified duality-gap allowance",
@@ -71,6 +86,13 @@ def _run(ctx: Ctx, replay: str | None, pid: str) -> None:
             ctx.extra[k] = ctx.counters.get(k, 0)
             if not ctx.counters.get(k):
                 raise MachineryError(f"vacuous one-object histories: {k} = 0")
+        nm = {k: v for k, v in ctx.counters.items() if k.startswith("near_max_cases:")}
+        ctx.extra["near_max_cases"] = nm | {"aggregators_the_model_bounds": sorted({lab for s in picked for key, lab in
+                                                                                     (("mean", "Mean"), ("sum", "Sum"), ("constP", "Constant(P)"),
+                                                                                      ("constW", "Constant(W)"), ("constN", "Constant(P/sum P)"))
+                                                                                     if s["nearmax"][key]})}
+        if not nm.get("near_max_cases:float64") or not nm.get("near_max_cases:float32"):
+            raise MachineryError(f"vacuous near-max family: {nm}")
     if pid == "C08":
         pads = [s for s in picked if s["pad"]["cnt"] > 0]
         ctx.extra["padded_scenarios_replayed"] = {"total": len(pads), "max_zero_columns": max((s["pad"]["cnt"] for s in pads), default=0),
@@ -79,6 +101,21 @@ def _run(ctx: Ctx, replay: str | None, pid: str) -> None:
         if not pads or not ctx.extra["padded_scenarios_replayed"]["interleaved"] or \
                 not ctx.extra["padded_scenarios_replayed"]["on_badly_conditioned_instances"]:
             raise MachineryError(f"vacuous zero-column padding: {ctx.extra['padded_scenarios_replayed']}")
+        wide = [s for s in picked if s["pad"]["cnt"] > 0 or s["pad"]["wk"] > 0]
+        widths = sorted({s["n"] * 4 ** s["pad"]["wk"] + s["pad"]["cnt"] for s in wide})
+        ctx.extra["wide_presentations_replayed"] = {
+            "total": len(wide), "widths": widths, "not_a_multiple_of_64": sum(1 for w in widths if w % 64),
+            "dense_4^wk_copies": sum(1 for s in wide if s["pad"]["wk"] > 0),
+            "layouts": {lay: sum(1 for s in wide if s["pad"]["lay"] == lay) for lay in ("append", "interleave", "prepend", "none")},
+            "informative_last_column": sum(1 for s in wide if s["padpos"][-1] == s["n"] * 4 ** s["pad"]["wk"] + s["pad"]["cnt"])}
+        wp = ctx.extra["wide_presentations_replayed"]
+        if wp["not_a_multiple_of_64"] < 6 or not wp["dense_4^wk_copies"] or not all(wp["layouts"][k] for k in ("append", "interleave", "prepend")) \
+                or not wp["informative_last_column"]:
+            raise MachineryError(f"vacuous wide presentations: {wp}")
+        hc = {k.split(":", 1)[1]: v for k, v in ctx.counters.items() if k.startswith("history_calls:")}
+        ctx.extra["one_object_history_calls_by_presentation"] = hc
+        if not all(hc.get(k) for k in ("fresh", "refill", "view", "newview")):
+            raise MachineryError(f"vacuous one-object histories: {hc}")
     skipped = {k: v for k, v in ctx.counters.items() if k.startswith("skipped:")}
     ctx.extra["skipped_by_exact_classification"] = skipped
     if pid == "C09":
@@ -95,7 +132,10 @@ def _run(ctx: Ctx, replay: str | None, pid: str) -> None:
                  "before every other call of that case, so the first walk of every worker process starts in a process in which "
                  "no UPGrad object was used before (counted); the bound is evaluated per rung against that rung's reg_eps for both walks.")
         for k in ("ladder_triples_with_singular_values_on_both_sides_of_norm_eps", "ladder_triples_straddling_the_default_norm_eps",
-                  "ladder_walks_descending_first_in_a_process_without_earlier_ladder_calls"):
+                  "ladder_walks_descending_first_in_a_process_without_earlier_ladder_calls",
+                  "ladder_triples_with_norm_eps_zero_int", "ladder_triples_with_norm_eps_zero_float",
+                  "ladder_triples_with_norm_eps_zero_on_matrices_of_small_scale",
+                  "ladder_triples_with_norm_eps_zero_on_matrices_of_large_scale"):
             ctx.extra[k] = ctx.counters.get(k, 0)
             if not ctx.counters.get(k):
                 raise MachineryError(f"vacuous UPGrad ladder: {k} = 0")
